@@ -64,6 +64,27 @@ def invoke_inst(tier):
                 note='normal return: IN, backend call, OUT; abort points (argument/result conversion) lie inside the bracket with the guard armed')
 
 
+def per_sandbox_state_inst(tier):
+    """the transition state is per sandbox: set through the public setter on two sandbox objects, an invocation on the first
+    announces the first one's state in both notifications (no reference to how the state is stored)"""
+    stub = ('backend impl_invoke_with_func_ptr(stub)', _is('impl_invoke_with_func_ptr'),
+            '__CPROVER_ensures(g_gcalls == __CPROVER_old(g_gcalls) + 1 && $ret == g_gret)\n__CPROVER_assigns(g_gcalls)')
+    cl = sb_req('$this') + [
+        ('fresh', '__CPROVER_requires(g_ins == 0 && g_outs == 0 && g_events == 0 && g_gcalls == 0)'),
+        ('both_notifications_carry_this_sandboxes_state', '__CPROVER_ensures(g_ins == 1 && g_outs == 1 && g_in_state == g_state_a && g_out_state == g_state_a)'),
+        ('frame', '__CPROVER_assigns(g_ins, g_outs, g_events, g_in_at, g_out_at, g_in_kind, g_out_kind, g_in_name, g_out_name, g_in_ptr, g_out_ptr, g_in_state, g_out_state, g_gcalls, g_call_at)')]
+    h = REGIONS + SB_DECL + ('  g_noabort = 0; struct %s other; unsigned long in_sa, in_sb; g_state_a = in_sa;\n'
+                             '  $FN(set)(&sb, (void *)in_sa); $FN(set)(&other, (void *)in_sb);   /* the other sandbox gets an arbitrary (other) state afterwards */\n'
+                             '  g_ins = 0; g_outs = 0; g_events = 0; g_gcalls = 0; int in_ret; g_gret = in_ret; long in_a; uintptr_t in_fn;\n'
+                             '  struct %s r = $ROOT(&sb, "f", (void *)in_fn, &in_a);\n' % (SB, cs('rlbox::tainted<int, rlbox::vsbx>')))
+    return Inst('c19_invoke_state_is_per_sandbox', 'rlbox_sandbox<vsbx>& s, void* fp, long a', 's.set_transition_state(fp); s.INTERNAL_invoke_with_func_ptr<int(long)>("f", fp, a);', cl, h,
+                leaves=['dynamic_check', stub], prop=PROP, root_name='INTERNAL_invoke_with_func_ptr', tier=tier, pre=GH + ' unsigned long g_state_a;\n' + HOOKS, facts=FACTS,
+                root_pick=lambda tu, fn: find_func(tu, 'INTERNAL_invoke_with_func_ptr', 'rlbox::rlbox_sandbox<rlbox::vsbx>'),
+                extra_fns={'set': lambda tu: find_func(tu, 'set_transition_state', 'rlbox::rlbox_sandbox<rlbox::vsbx>')},
+                opts={'extern_functions': ('vhook_in', 'vhook_out')}, extra_replace=['vhook_in', 'vhook_out'],
+                note='two sandbox objects with states set through set_transition_state; black-box with respect to the storage of the state')
+
+
 def interceptor_inst(tier):
     TL = cs('rlbox::tainted<long, rlbox::vsbx>')
     TI = cs('rlbox::tainted<int, rlbox::vsbx>')
@@ -154,7 +175,7 @@ def timing_units(tier):
 
 
 def units(tier):
-    return [Unit('C19_transitions', [invoke_inst(tier), interceptor_inst(tier)], pre_cpp=PRE_CPP)] + timing_units(tier)
+    return [Unit('C19_transitions', [invoke_inst(tier), interceptor_inst(tier), per_sandbox_state_inst(tier)], pre_cpp=PRE_CPP)] + timing_units(tier)
 
 
 ASSUMPTIONS = [
